@@ -4,9 +4,12 @@ package main
 import (
 	"fmt"
 	"os"
+	"path/filepath"
 	"runtime"
 	"sync"
 	"sync/atomic"
+
+	"verif/harness/refsem"
 )
 
 type checkFn func(tier string, replay string) int
@@ -77,6 +80,12 @@ func publicSelf() string {
 			return
 		}
 		publicDir, publicBin = d, p
+		// the unprivileged children need the oracle file too, and /verif (or wherever this tree lives) may not be readable for them
+		if ob, err := os.ReadFile(filepath.Join(refsem.Root(), "oracles", "oracles.json")); err == nil {
+			if os.WriteFile(d+"/oracles.json", ob, 0o644) == nil {
+				os.Setenv("VERIF_ORACLES", d+"/oracles.json")
+			}
+		}
 	})
 	return publicBin
 }
